@@ -20,6 +20,7 @@ class SpecOut:
         self.intrinsic = False
         self.accessed = []    # (addr64, nbytes, guard)
         self.loop_bound = None
+        self.classes = None   # optional partition of the state space: name -> z3 Bool
 
 
 def il_next_pc(ctx, lift, run, fst):
@@ -55,7 +56,7 @@ def il_next_pc(ctx, lift, run, fst):
     return pc, none, exactly_one
 
 
-def analyse(arch, endian, item, specfn, k=4, timeout_ms=20000, observables=None, window=None):
+def analyse(arch, endian, item, specfn, k=4, timeout_ms=20000, observables=None, window=None, flag_names=()):
     """item: dict(bytes=hex, address=int, desc=...).  specfn(ctx, item, lift) -> SpecOut.
     Returns a result dict (picklable)."""
     t0 = time.time()
@@ -201,26 +202,51 @@ def analyse(arch, endian, item, specfn, k=4, timeout_ms=20000, observables=None,
             if und:
                 res.update(status="undecided", detail="timeout on " + ",".join(und)); return res
             res.update(status="unsat", nobs=len(diffs)); return res
-    differing = [n for n, dterm in diffs.items() if z3.is_true(m.eval(dterm, model_completion=True))]
-    windowed = False
+    # 3. a difference exists: split it by state class (spec-provided partition of the states) and
+    #    by observable group, so that findings are identified by solver-independent facts
+    groups = {"flags": [], "value": [], "pc": []}
+    for n, dterm in diffs.items():
+        if n in flag_names: groups["flags"].append(dterm)
+        elif n in ("pc", "successors-not-exclusive"): groups["pc"].append(dterm)
+        else: groups["value"].append(dterm)
+    classes = spec.classes or {"any": z3.BoolVal(True)}
+    cons = []
     if window is not None:
-        # re-solve with every accessed address inside the native scratch window (and an indirect
-        # target pinned) so that the model can be executed on the host CPU
         lo, hi, pin = window
-        cons = []
         accs = [(g, a, n) for (g, a, n) in run.events.loads] + [(g, a, v.size() // 8) for (g, a, v) in run.events.stores] + \
                [(g, a, n) for (a, n, g) in spec.accessed]
         for g, a, n in accs:
             c = z3.And(z3.UGE(a, z3.BitVecVal(lo, 64)), z3.ULE(a, z3.BitVecVal(hi - 32, 64)))
             cons.append(c if g is True else z3.Implies(g, c))
-        if spec.next_pc is not None and not z3.is_bv_value(z3.simplify(spec.next_pc)) and pin is not None and item.get("pin_pc", False):
+        if spec.next_pc is not None and not z3.is_bv_value(z3.simplify(spec.next_pc)) and pin is not None:
             cons.append(spec.next_pc == z3.BitVecVal(pin, 64))
-        vw, mw, dt = solve.check([A, reach, z3.Or(*[diffs[n] for n in differing])] + cons, timeout_ms); res["solver_s"] += dt
-        if vw == solve.SAT:
-            m = mw; windowed = True
-            differing = [n for n, dterm in diffs.items() if z3.is_true(m.eval(dterm, model_completion=True))]
-    res.update(status="sat", diffs=differing, model=model_dump(ctx, m, spec, run, fst, differing, pc_il))
-    res["model"]["windowed"] = windowed
+    found = []
+    und = []
+    for cname, cpred in classes.items():
+        for gname, gl in groups.items():
+            if not gl:
+                continue
+            q = [A, reach, cpred, z3.Or(*gl)]
+            windowed = window is not None and not cons
+            v1, m1 = None, None
+            if cons:
+                v1, m1, dt = solve.check(q + cons, timeout_ms); res["solver_s"] += dt
+                windowed = v1 == solve.SAT
+            if v1 != solve.SAT:
+                v1, m1, dt = solve.check(q, timeout_ms); res["solver_s"] += dt
+            if v1 == solve.UNDECIDED:
+                und.append(f"{cname}/{gname}")
+            if v1 != solve.SAT:
+                continue
+            differing = [n for n, dterm in diffs.items() if z3.is_true(m1.eval(dterm, model_completion=True))]
+            md = model_dump(ctx, m1, spec, run, fst, differing, pc_il)
+            md["windowed"] = windowed
+            found.append({"class": cname, "group": gname, "diffs": differing, "model": md})
+    if not found:
+        res.update(status="undecided", detail="combined query sat but split queries undecided: " + ",".join(und)); return res
+    res.update(status="sat", findings=found, diffs=sorted({d for f in found for d in f["diffs"]}), model=found[0]["model"])
+    if und:
+        res["split_undecided"] = und
     return res
 
 
